@@ -202,6 +202,13 @@ def quant_loop(cls, fname):
     """for sub in self.subshapes: if [not] sub.contains_point(..): return C ; return D  -> Quant"""
     fn = find_func(cls, "_contains_point")
     body = body_wo_doc(fn)
+    if len(body) == 1 and isinstance(body[0], ast.Return) and isinstance(body[0].value, ast.Call) and getattr(body[0].value.func, "id", None) in ("all", "any") \
+            and len(body[0].value.args) == 1 and isinstance(body[0].value.args[0], (ast.GeneratorExp, ast.ListComp)):
+        g = body[0].value.args[0]
+        if len(g.generators) == 1 and not g.generators[0].ifs and ast.unparse(g.generators[0].iter) == "self.subshapes" \
+                and ast.unparse(g.elt) == f"{ast.unparse(g.generators[0].target)}.contains_point(point, boundary)":
+            return "Quant.all" if body[0].value.func.id == "all" else "Quant.any"
+        raise Unsupported(f"unsupported all/any expression in {cls.name}._contains_point at {where(fn, fname)}")
     if len(body) != 2 or not isinstance(body[0], ast.For) or not isinstance(body[1], ast.Return):
         raise Unsupported(f"unsupported loop in {cls.name}._contains_point at {where(fn, fname)}")
     loop = body[0]
@@ -426,7 +433,7 @@ def primitive_vertices(ptree, fn_name, var, fname, branch_test=None):
 def _loop_rule(stmts, fname):
     """recognise one block of a `_contains_shape` body; returns the CRule constructor name"""
     src = [ast.unparse(s) for s in stmts]
-    if len(stmts) == 1 and isinstance(stmts[0], ast.Return):
+    if len(stmts) == 1 and isinstance(stmts[0], ast.Return) and not (isinstance(stmts[0].value, ast.Call) and getattr(stmts[0].value.func, "id", None) in ("all", "any")):
         v = stmts[0].value
         if isinstance(v, ast.Call) and isinstance(v.func, ast.Attribute) and v.func.attr.endswith("__contains_simple") \
                 and ast.unparse(v.func.value) == "self" and [ast.unparse(a) for a in v.args] == ["other"]:
@@ -436,6 +443,19 @@ def _loop_rule(stmts, fname):
     while stmts and isinstance(stmts[0], ast.Assign):
         pre.append(stmts[0])
         stmts = stmts[1:]
+    if len(stmts) == 1 and isinstance(stmts[0], ast.Return) and isinstance(stmts[0].value, ast.Call) and getattr(stmts[0].value.func, "id", None) in ("all", "any") \
+            and len(stmts[0].value.args) == 1 and isinstance(stmts[0].value.args[0], (ast.GeneratorExp, ast.ListComp)) and len(stmts[0].value.args[0].generators) == 1 \
+            and not stmts[0].value.args[0].generators[0].ifs:
+        # `return all(<test> for sub in <list>)` / `return any(...)`: rewritten as the equivalent loop and recognised below
+        g = stmts[0].value.args[0]
+        is_all_ = stmts[0].value.func.id == "all"
+        test_ = g.elt if not is_all_ else ast.UnaryOp(op=ast.Not(), operand=g.elt)
+        iff_ = ast.If(test=test_, body=[ast.Return(value=ast.Constant(value=not is_all_))], orelse=[])
+        loop_ = ast.For(target=g.generators[0].target, iter=g.generators[0].iter, body=[iff_], orelse=[])
+        for n_ in (iff_, loop_, test_):
+            ast.copy_location(n_, stmts[0])
+        ast.fix_missing_locations(loop_)
+        stmts = [loop_, ast.copy_location(ast.Return(value=ast.Constant(value=is_all_)), stmts[0])]
     if len(stmts) != 2 or not isinstance(stmts[0], ast.For) or not isinstance(stmts[1], ast.Return):
         raise Unsupported(f"unsupported containment block at {where(stmts[0] if stmts else pre[0], fname)}")
     loop, final = stmts
